@@ -309,12 +309,15 @@ def _write_back_and_resolve(db, rep):
         r7.broken('anchor vanished: RefsManager::OutputRefs(normStr, subRange)')
     else:
         f = c[0]
-        W = range(0, 7)
+        W = range(0, 9) if rep.tier == 'thorough' else range(0, 7)
         bad = None
         cases = 0
         try:
             spans = [(a, b) for a in W for b in W if a < b]
             lists = [[]] + [[s] for s in spans] + [[s1, s2] for s1 in spans for s2 in spans if s1[1] <= s2[0]]
+            if rep.tier == 'thorough':
+                small = [(a, b) for a in range(0, 6) for b in range(a + 1, 7) if b - a <= 2]
+                lists += [[s1, s2, s3] for s1 in small for s2 in small for s3 in small if s1[1] <= s2[0] and s2[1] <= s3[0]]
             for refs in lists:
                 for sub in [(a, b) for a in W for b in W if a <= b]:
                     cases += 1
@@ -371,7 +374,7 @@ def _write_back_and_resolve(db, rep):
     cases = 0
     try:
         kinds = [('E', 0), ('C', -1), ('C', 0), ('C', 1), ('C', 2)]
-        for n_refs in (0, 1, 2, 3):
+        for n_refs in ((0, 1, 2, 3, 4) if rep.tier == 'thorough' else (0, 1, 2, 3)):
             for combo in itertools.product(kinds, repeat=n_refs):
                 cases += 1
                 log = []
